@@ -9,6 +9,7 @@ EXPLANATION = (
     "transactional path can also hit only through this constructor); (2) the WAL bootstrap of the bulk loader is bracketed BeginTx..CommitTx and "
     "fsynced, and the manifest it logs is dominated by successful writes of segments, properties and statistics. Whether the unsynced page file matters "
     "is a power-loss question outside this property (listed as an observation). Content equality with a transactional load is not decided."
+    " C30.3: no segment builder iterates a set of edge keys (or dedups the edge vector) into a segment — relationships are a multiset."
 )
 
 
